@@ -182,6 +182,24 @@ let handle (toks : string list) : string =
      | Some roots ->
        let nd = (match s_all_cells d with Some cs -> (if nodup_trees cs then "1" else "0") ^ Printf.sprintf " ncells=%d" (List.length cs) | None -> "?") in
        Printf.sprintf "some %d %s nodup=%s" (List.length roots) (String.concat " " (List.map cell_text roots)) nd)
+  | "ckproof" :: h :: rest ->
+    let (ns, _) = parse_dag rest in
+    (match build_dag ns with
+     | Err e -> "err build"
+     | Ok ks -> (match check_proof ks.(Array.length ks - 1) (bytes_of_hex h) with Ok _ -> "ok" | Err e -> "err " ^ err_name e))
+  | "hdrproof" :: h :: store :: rest ->
+    let (ns, _) = parse_dag rest in
+    (match build_dag ns with
+     | Err e -> "err build"
+     | Ok ks -> (match check_block_header_proof ks.(Array.length ks - 1) (bytes_of_hex h) (store = "1") with
+         | Ok None -> "ok none" | Ok (Some x) -> "ok " ^ hex_of_bytes x | Err e -> "err " ^ err_name e))
+  | "acchashes" :: h :: bp :: sp :: sa :: cl :: rest ->
+    let (ns, _) = parse_dag rest in
+    (match build_dag ns with
+     | Err e -> "err build"
+     | Ok ks ->
+       let g i = ks.(int_of_string i) in
+       (match check_account_hashes (g bp) (g sp) (g sa) (g cl) (bytes_of_hex h) with Ok _ -> "ok" | Err e -> "err " ^ err_name e))
   | "senc" :: rest ->
     let (ns, ops) = parse_dag rest in
     let trees = tree_of_dag ns in
